@@ -237,7 +237,105 @@ _swm = Contract(
           'mutation of it is a failed frame obligation',
 )
 
+
+# ---- Project.__init__: what save() later dumps is exactly what the constructor was given, as JSON-able values ---
+def _replay_init(inp):
+    """the real constructor, then the real save()/load() pair in a temp dir: the loaded project has the same settings"""
+    import tempfile, shutil
+    from pathlib import Path
+    from pyvc.replay import run_real
+    from jedi.api.project import Project
+    d = tempfile.mkdtemp(prefix='c20init_', dir='/var/tmp')
+    try:
+        conv = (lambda x: Path(x)) if inp.get('as_path') else (lambda x: x)
+        kw = {}
+        if inp.get('sys_path') is not None:
+            kw['sys_path'] = [conv(x) for x in inp['sys_path']]
+        if inp.get('added') is not None:
+            kw['added_sys_path'] = [conv(x) for x in inp['added']]
+        if inp.get('env') is not None:
+            kw['environment_path'] = conv(inp['env'])
+        kw['smart_sys_path'] = inp.get('smart', True)
+        kw['load_unsafe_extensions'] = inp.get('unsafe', False)
+
+        def go():
+            pr = Project(conv(d), **kw)
+            got = {k: getattr(pr, a) for k, a in (('sys_path', '_sys_path'), ('added', 'added_sys_path'),
+                                                  ('env', '_environment_path'), ('smart', '_smart_sys_path'),
+                                                  ('unsafe', '_load_unsafe_extensions'))}
+            got['path'] = str(pr._path)
+            got['all_str'] = all(type(x) is str for x in (pr._sys_path or [])) \
+                and all(type(x) is str for x in pr.added_sys_path) \
+                and (pr._environment_path is None or type(pr._environment_path) is str)
+            pr.save()
+            ld = Project.load(conv(d))
+            got['loaded'] = {k: getattr(ld, a) for k, a in (('sys_path', '_sys_path'), ('added', 'added_sys_path'),
+                                                            ('env', '_environment_path'), ('smart', '_smart_sys_path'),
+                                                            ('unsafe', '_load_unsafe_extensions'))}
+            got['loaded']['path'] = str(ld._path)
+            return got
+        out = run_real(go)
+        exp = {'sys_path': inp.get('sys_path'), 'added': list(inp.get('added') or []), 'env': inp.get('env'),
+               'smart': inp.get('smart', True), 'unsafe': inp.get('unsafe', False), 'path': d}
+        return {'EXPECTED': exp}, out
+    finally:
+        shutil.rmtree(d, ignore_errors=True)
+
+
+_INIT_LIB = [
+    {'sys_path': ['/a', '/b', '/a'], 'added': ['/c'], 'env': '/e/bin/python', 'smart': False, 'unsafe': True},
+    {'sys_path': ['/a', '/b'], 'added': ['/c', '/c'], 'env': '/e/bin/python', 'as_path': True},
+    {'sys_path': [], 'added': []},
+    {'sys_path': None, 'added': None, 'env': None, 'smart': True},
+    {'sys_path': ['/\u00fc/\u4e2d'], 'added': ['rel/dir'], 'env': 'rel/python', 'as_path': True, 'unsafe': True},
+]
+_INIT_CONCRETE = [
+    'all(result[k] == EXPECTED[k] for k in EXPECTED)', 'result["all_str"]',
+    'all(result["loaded"][k] == EXPECTED[k] for k in EXPECTED)',
+]
+
+
+def _init_contract(shape, ptype, seqtype, envtype, addedtype):
+    return Contract(
+        id='C20.Project.__init__[%s]' % shape, prop='C20',
+        clause='the constructor stores every setting it is given - sys_path, added_sys_path (entry by entry, in order, '
+               'as str), environment_path (as str), smart_sys_path, load_unsafe_extensions, the path (absolute for a '
+               'str) - so that save() has the settings to dump and load() = cls(**data) restores them',
+        file='jedi/api/project.py', qualname='Project.__init__',
+        params={'self': Obj('ProjectInit20'), 'path': ptype, 'environment_path': Opt(envtype),
+                'load_unsafe_extensions': BOOL, 'sys_path': Opt(seqtype), 'added_sys_path': addedtype,
+                'smart_sys_path': BOOL},
+        families=['ProjectInit20'],
+        ensures=[
+            'self._path == (Path(path).absolute() if isinstance(path, str) else path)',
+            'implies(environment_path is None, self._environment_path is None)',
+            'implies(environment_path is not None, self._environment_path is not None and '
+            'the(self._environment_path) == str(the(environment_path)))',
+            'implies(sys_path is None, self._sys_path is None)',
+            'implies(sys_path is not None, self._sys_path is not None and '
+            'len(the(self._sys_path)) == len(the(sys_path)) and '
+            'all(the(self._sys_path)[i] == str(the(sys_path)[i]) for i in range(len(the(sys_path)))))',
+            'len(self.added_sys_path) == len(added_sys_path)',
+            'all(self.added_sys_path[i] == str(added_sys_path[i]) for i in range(len(added_sys_path)))',
+            'self._smart_sys_path == smart_sys_path',
+            'self._load_unsafe_extensions == load_unsafe_extensions',
+            'self._django == False',
+        ],
+        witness={}, replay=_replay_init, concrete_only=True, witness_library=_INIT_LIB,
+        concrete_ensures=_INIT_CONCRETE,
+        notes='argument shape %s (the value model is monomorphic: one instance per notation of the arguments; a local '
+              'that is re-bound from Path to str - sys_path, environment_path given as Path - is outside the subset, '
+              'those notations are covered by the replay library and the bounded stand-in only)' % shape,
+    )
+
+
+_init_str = _init_contract('str', STR, Seq(STR), STR, Seq(STR))
+_init_path = _init_contract('added_sys_path of Path', STR, Seq(STR), STR, Seq(PATH))
+
 FAMILIES = [
+    Family('ProjectInit20', fields={'_path': PATH, '_sys_path': Opt(Seq(STR)), '_smart_sys_path': BOOL,
+                                     '_django': BOOL, 'added_sys_path': Seq(STR), '_environment_path': Opt(STR),
+                                     '_load_unsafe_extensions': BOOL}),
     Family('Project20', attrs={'_path': PATH, '_sys_path': Opt(Seq(STR)), '_smart_sys_path': BOOL,
                                '_django': BOOL, 'added_sys_path': Seq(STR), '_environment_path': Opt(STR),
                                '_load_unsafe_extensions': BOOL},
@@ -254,7 +352,7 @@ FAMILIES = [
                                                     note='memoised on the environment: the same list on every call')}),
 ]
 
-CONTRACTS = [_dedup, _base, _get_sys_path, _swm]
+CONTRACTS = [_dedup, _base, _get_sys_path, _swm, _init_str, _init_path]
 
 
 def register(reg):
